@@ -171,6 +171,8 @@ def _worker_call(args):
             # fallback replay unit: the whole worker task (a failure that depends on what the same task did before - something
             # the library remembered - does not show when the single case is re-run alone)
             f["task"] = [modname, funcname, jsonable(task)]
+            if os.environ.get("PYTHONHASHSEED", "0") != "0":
+                f["hashseed"] = os.environ["PYTHONHASHSEED"]  # found in an interpreter with this hash seed: replay there
         return res.pack()
     except BaseException as e:  # harness failure inside a worker: surface loudly
         return dict(harness_error=f"{type(e).__name__}: {e}\n{traceback.format_exc()}", task=repr(task)[:300])
@@ -197,14 +199,14 @@ class Ctx:
         self.rng.shuffle(items)
         return items
 
-    def pmap(self, modname: str, funcname: str, tasks, nproc: int | None = None, chunksize=1, fresh=False):
+    def pmap(self, modname: str, funcname: str, tasks, nproc: int | None = None, chunksize=1, fresh=False, hashseed: str | None = None):
         """run tasks in spawned worker processes, merge their Results into self.res.
         fresh=True: every task gets its own new interpreter (nothing the library cached for another task is visible)"""
         tasks = self.shuffled(tasks)
         if not tasks:
             return
         nproc = nproc or min(len(tasks), int(os.environ.get("MZ_NPROC", os.cpu_count() or 4)))
-        if (nproc <= 1 and not fresh) or os.environ.get("MZ_SERIAL"):
+        if (nproc <= 1 and not fresh and hashseed is None) or os.environ.get("MZ_SERIAL"):
             for t in tasks:
                 d = _worker_call((modname, funcname, t))
                 self._merge(d)
@@ -214,9 +216,21 @@ class Ctx:
         ctx = mp.get_context("spawn")
         env = {k: os.environ[k] for k in ("MZ_REPO", "PYTHONHASHSEED", "MPLBACKEND", "OMP_NUM_THREADS",
                                           "MKL_NUM_THREADS", "VERIF_SEED", "VERIF_TIER") if k in os.environ}
-        with ctx.Pool(max(1, nproc), initializer=_worker_init, initargs=(env,), maxtasksperchild=1 if fresh else None) as pool:
-            for d in pool.imap_unordered(_worker_call, [(modname, funcname, t) for t in tasks], chunksize):
-                self._merge(d)
+        # hashseed: the workers of this call are interpreters started with another PYTHONHASHSEED (iteration order of sets of strings)
+        old_hs = os.environ.get("PYTHONHASHSEED")
+        if hashseed is not None:
+            os.environ["PYTHONHASHSEED"] = str(hashseed)
+            env = dict(env, PYTHONHASHSEED=str(hashseed))
+        try:
+            with ctx.Pool(max(1, nproc), initializer=_worker_init, initargs=(env,), maxtasksperchild=1 if fresh else None) as pool:
+                for d in pool.imap_unordered(_worker_call, [(modname, funcname, t) for t in tasks], chunksize):
+                    self._merge(d)
+        finally:
+            if hashseed is not None:
+                if old_hs is None:
+                    os.environ.pop("PYTHONHASHSEED", None)
+                else:
+                    os.environ["PYTHONHASHSEED"] = old_hs
 
     def _merge(self, d):
         if "harness_error" in d:
@@ -288,7 +302,7 @@ def run_check(prop: str, tier: str, seed: int) -> int:
             break
         attempts += 1
         path = REPLAY_DIR / f"{prop}-{digest(f['key'])}.json"
-        path.write_text(json.dumps(dict(property=prop, key=f["key"], what=f["what"], replay=f["replay"]),
+        path.write_text(json.dumps(dict(property=prop, key=f["key"], what=f["what"], replay=f["replay"], **({"hashseed": f["hashseed"]} if f.get("hashseed") else {})),
                                    indent=1))
         # trust-before-report: the recorded case must fail again, twice, in a fresh process
         outcomes = []
@@ -299,7 +313,8 @@ def run_check(prop: str, tier: str, seed: int) -> int:
                 outcomes.append(p.returncode)
             if outcomes != [1, 1] and f.get("task"):
                 # the single case passes alone: re-run the whole task that found it, in a fresh process, twice
-                path.write_text(json.dumps(dict(property=prop, key=f["key"], what=f["what"], replay=f["replay"], replay_mode="task", task=f["task"]), indent=1))
+                path.write_text(json.dumps(dict(property=prop, key=f["key"], what=f["what"], replay=f["replay"], replay_mode="task", task=f["task"],
+                                                **({"hashseed": f["hashseed"]} if f.get("hashseed") else {})), indent=1))
                 outcomes = []
                 for _ in range(2):
                     p = subprocess.run([sys.executable, "-m", "mzcheck", "replay", str(path)], cwd=str(VERIF),
